@@ -173,7 +173,8 @@ Definition lib_sym_ok (dec : bool) (p : sym_plan) (datalen : Z) : bool :=
   | Some ks => memZ (8 * zlen (p_key p)) ks
   end
   && lib_mode_ok (p_block p) (p_mode p) dec
-  && negb (p_gcm p && (mode_val (p_mode p) =? -1))             (* RC4 asked for GCM: no tag / AAD interface *)
+  (* RC4 asked for GCM: the stream context has no .tag (read on encrypt) and no AAD interface *)
+  && negb (p_gcm p && (mode_val (p_mode p) =? -1) && (negb dec || is_some (p_aad p)))
   && match p_pad p with PScheme _ => 0 <? p_block p | _ => true end
   && (if dec && (oeqZ (Some (mode_val (p_mode p))) BCM_CBC || oeqZ (Some (mode_val (p_mode p))) BCM_ECB)
       then datalen mod (p_block p) =? 0 else true).
